@@ -6,6 +6,7 @@ CONSTANTS
   ExportOn = TRUE
   SampleMod = 400
   TimeoutOdds = 1
+  MByz = {}
   Ks = {2}
 INIT MInit
 NEXT MNext
